@@ -5,7 +5,7 @@ from .brokergen import CONTRACT, SIGN
 
 HARNESS = "c05"
 CONST_GROUPS = ["message"]
-TIMEOUT = 3000
+TIMEOUT = 14400   # total run; generous: a loaded machine must not turn into a false "hang"
 STALL = 600      # the trace grows once per child process (16 sessions)
 RULE = ("one case = one session: reset <2-4 brokers>, then a random interleaving of client activity (new connections with "
         "chosen local ids, sub / unsub / close on 3-4 channels incl. '+' filters, bursts sub;unsub;sub within one clock "
